@@ -287,10 +287,28 @@ fn all_configs(max_tags: usize, max_entries: usize) -> Vec<(Vec<Tag>, Vec<usize>
     out
 }
 
+/// chains root <- mid <- leaf in which root and mid list TWO rule files each (every ordered pair of the three files, no filter) and the leaf one;
+/// declared forwards and backwards. These are the shapes in which the order of an ancestor's own entries matters to the rule history
+fn chain_configs() -> Vec<(Vec<Tag>, Vec<usize>)> {
+    let mut out = vec![];
+    let pairs: Vec<(usize, usize)> = (0..3).flat_map(|a| (0..3).filter(move |b| *b != a).map(move |b| (a, b))).collect();
+    for (ra, rb) in &pairs { for (ma, mb) in &pairs { for lf in 0..3 {
+        let tags = vec![
+            Tag { name: "root".into(), from: None, words: vec![0], alias: false, entries: vec![(*ra, 0), (*rb, 0)] },
+            Tag { name: "mid".into(), from: Some(0), words: vec![], alias: false, entries: vec![(*ma, 0), (*mb, 0)] },
+            Tag { name: "leaf".into(), from: Some(1), words: vec![], alias: false, entries: vec![(lf, 0)] },
+        ];
+        out.push((tags.clone(), vec![0, 1, 2])); out.push((tags, vec![2, 1, 0]));
+    } } }
+    out
+}
+
 /// for C10: the staged pipelines of the four-tag forests (every declaration order, all tags in one `asca seq` invocation) against the
 /// library run of each tag's concatenated rule history. Returns (configs, processes, tag outputs that agree, violations)
 pub fn staged_pipelines_for_c10() -> (usize, u64, u64, Vec<Viol>) {
-    let shapes = shape_configs();
+    let mut shapes = shape_configs();
+    let n_forests = shapes.len();
+    shapes.extend(chain_configs());
     let mut t = Acc::default();
     par_fold(shapes.len(), 4, Acc::default, |n, a| {
         let (tags, order) = (&shapes[n].0, &shapes[n].1);
@@ -309,6 +327,18 @@ pub fn staged_pipelines_for_c10() -> (usize, u64, u64, Vec<Viol>) {
             let into: Vec<String> = if tags[root].alias { formats::parse_alias(ALIAS).0 } else { vec![] };
             let Out::Ok(Ok(one_shot)) = guarded(5_000_000, || asca::run(&groups, &words, &into, &[])) else { continue };
             let want: Vec<String> = one_shot.into_iter().filter(|x| !x.is_empty()).collect();
+            // chains: what `conv tag --recurse` exports is that same history, and running the export gives the same words
+            if n >= n_forests {
+                let _ = run_cli(&sb.dir, &["conv", "tag", &tg.name, "-p", ".", "-r", "-o", &format!("hist_{}.json", tg.name)]); a.procs += 1;
+                let j: Option<Value> = sb.read(&format!("hist_{}.json", tg.name)).and_then(|s| serde_json::from_str(&s).ok());
+                let names = |v: &Value| -> Vec<String> { v["rules"].as_array().map(|x| x.iter().map(|g| g["name"].as_str().unwrap_or("").to_string()).collect()).unwrap_or_default() };
+                let want_names: Vec<String> = groups.iter().map(|g| g.name.clone()).collect();
+                let replay = j.as_ref().and_then(|j| { let gs: Vec<RuleGroup> = serde_json::from_value(j["rules"].clone()).ok()?; let ws: Vec<String> = serde_json::from_value(j["words"].clone()).ok()?; match guarded(5_000_000, || asca::run(&gs, &ws, &[], &[])) { Out::Ok(Ok(v)) => Some(v.into_iter().filter(|x| !x.is_empty()).collect::<Vec<_>>()), _ => None } });
+                match &j {
+                    Some(j) if names(j) == want_names && replay.as_ref() == Some(&want) => a.ok += 1,
+                    other => a.viols.push(Viol { key: format!("seq-history|{}|{}", tg.name, cfg.replace('\n', " ").split_whitespace().collect::<Vec<_>>().join(" ")), desc: format!("tag `{}`: `conv tag --recurse` exported groups {:?}, the stages in order are {:?}; running the export gives {:?}, the staged result is {:?}; config: {}", tg.name, other.as_ref().map(names), want_names, replay, want, cfg), case: json!({"kind": "seq-history"}) }),
+                }
+            }
             match out_file(&sb, &tg.name) {
                 Some((_, g)) if nonblank(&g) == want => a.ok += 1,
                 got => a.viols.push(Viol { key: format!("seq-staged|{}|{}", tg.name, cfg.replace('\n', " ").split_whitespace().collect::<Vec<_>>().join(" ")), desc: format!("tag `{}`: `asca seq` (stages run one after the other on rendered words) wrote {:?}, one run of its whole rule history gives {:?} (exit {:?}, stderr {}); config: {}", tg.name, got, want, o.code, o.stderr.replace('\n', " | "), cfg), case: json!({"kind": "seq-staged"}) }),
@@ -326,7 +356,8 @@ pub fn run() -> i32 {
     let (mt, me) = if thorough { (3, 2) } else { (2, 1) };
     r.rule = format!("every config with 1..{} tags: `%` reference of each tag in {{none}} + all tags (so every chain, fork, forward reference, self-loop and longer cycle occurs), word lists on root tags (one or two files), extra word file on pipeline tags or not, {} rule-file entries per tag from 3 rule files of 3 named groups each with filter in {{none, !{{a}}, !{{b,a}}, ~{{c}}, ~{{c,a}}}} spelled with varying case, deromaniser-only alias on some root tags, tags declared in forward and reverse order; the real `asca seq -o -y` is run in a fresh directory and the single file under out/<tag>/ is compared (non-blank lines) with asca::run composed stage by stage by a reference that reads the same files with the harness's own readers; a second run with `-y` over the same directory, after stale lines were appended to every output file, must leave the same files; each tag is also run alone in a fresh copy (cold cache) and must write the same file, and with `-i` one numbered file per entry equal to the reference after that entry; `conv tag -r` must export the concatenated rule history, and running it through the library gives the same words when no words were added mid-pipeline; cyclic configs must be rejected without output within 20 s; plus every forest of depth >= 2 over four tags in all 24 declaration orders (all tags in one invocation, so the cache is shared; roots differ in their deromaniser, and `conv tag -r` of every pipeline tag must export its own root's); rule files contain empty lines after a group name and between sub rules. Non-trivial = comparisons that held on valid configs.", mt, me);
     r.assumptions.push("products larger than 6000 configs per tag count are walked with a fixed stride over the mixed-radix index (every choice of every dimension still occurs); the quick box (<= 2 tags, 1 entry) is complete".into());
-    let configs = all_configs(mt, me);
+    let mut configs = all_configs(mt, me);
+    if !thorough { configs.extend(chain_configs()); }
     let mut t = Acc::default();
     par_fold(configs.len(), 2, Acc::default, |i, a| config_case(i, &configs[i].0, &configs[i].1, a), |a| t.merge(a));
     let shapes = shape_configs();
